@@ -5,6 +5,8 @@ import json, os, glob
 V = os.path.dirname(os.path.dirname(os.path.abspath(__file__)))
 meta = json.load(open(os.path.join(V, "tools", "manifest_meta.json")))
 props = [json.loads(l)["id"] for l in open(os.path.join(V, "properties.jsonl"))]
+for mf in glob.glob(os.path.join(V, "tools", "props", "C*.meta.json")):
+    meta["checks"][os.path.basename(mf).split(".")[0]] = json.load(open(mf))
 claimed = sorted(os.path.basename(p)[:-3] for p in glob.glob(os.path.join(V, "tools", "props", "C*.py")))
 claimed = [c for c in claimed if c in meta["checks"] and os.path.exists(os.path.join(V, "coq", "Properties_%s.v" % c))]
 checks = []
